@@ -1,34 +1,117 @@
 (* C02 model driver.  payload: ops separated by ' ', fields by ','.  Output: after EVERY op one
-   spec key o<k> (return value, size+contents of all 4 slots, == matrix, read probes) and one
-   internal key i<k> (sharing pattern, cow flags, refcounts, number of live heap blocks). *)
-let nslots = 4
+   spec key o<k> (return value, size+contents of all logical positions, == matrix, read probes) and one
+   internal key i<k> (sharing pattern, cow flags, refcounts, number of live heap blocks).
+
+   Logical positions 0..3 are the pool objects in raw storage, 4..7 the elements of a
+   std::vector<DmxBuffer> (harness) = model slots vbase..vbase+vsize-1; the model pool has 15 slots:
+   0..3 pool, 4..7 and 8..11 the vector's storage before/after a reallocation, 12 the temporary of an
+   expression, 14 never constructed (stands for "no such element").
+   EXPRESSION ops (assignment from a temporary / from a by-value return, std::swap, vector push_back /
+   insert / erase / resize / reserve / reverse) are C++ expressions in the harness; here they are the
+   sequence of copy constructions, copy assignments and destructions that the expression MEANS for a
+   value type (and that it literally is for a class without move members). *)
+let nlog = 8
+let nmodel = 15
+let tmp_slot = 12
+let dead_slot = 14
+let vcap = 4
+let vbase = ref 4
+let vsize = ref 0
+let phys (l : int) : int =
+  if l < 4 then l else if l - 4 < !vsize then !vbase + (l - 4) else dead_slot
 let fresh : n list = List.init 512 (fun i -> n_of_int ((0xA5 + 7 * i) land 255))
 let nat i = nat_of_int i
 let parse_ptr s = if s = "N" then XNull else XExt (bytes_of_hex s)
 let num s = n_of_int (ios s)
-let parse_op (t : string) : op =
+let pn s = nat (phys (ios s))
+let range a b = if b < a then [] else List.init (b - a + 1) (fun x -> a + x)      (* a..b *)
+let is_live_slot (s : st) (m : int) : bool = match internals s (nat m) with Some _ -> true | None -> false
+let swap_ops (a : int) (b : int) : op list =
+  [OCopyNew (nat tmp_slot, nat a); OAssign (nat a, nat b); OAssign (nat b, nat tmp_slot); ODestroy (nat tmp_slot)]
+
+(* Some (ops, single) = run them; None = skipped by model and harness alike (precondition of the
+   expression not met).  single: the result is the return value of the one op. *)
+let expand (s : st) (t : string) : (op list * bool) option =
+  let lv l = is_live_slot s (phys (ios l)) in
+  let vb = !vbase and vs = !vsize in
   match String.split_on_char ',' t with
-  | ["new"; i] -> ONew (nat (ios i))
-  | ["cpy"; i; j] -> OCopyNew (nat (ios i), nat (ios j))
-  | ["newd"; i; p; n] -> ONewData (nat (ios i), parse_ptr p, num n)
-  | ["del"; i] -> ODestroy (nat (ios i))
-  | ["asg"; i; j] -> OAssign (nat (ios i), nat (ios j))
-  | ["setb"; i; j] -> OSetBuf (nat (ios i), nat (ios j))
-  | ["setp"; i; p; n] -> OSetPtr (nat (ios i), parse_ptr p, num n)
-  | ["sets"; i; h] -> OSetStr (nat (ios i), bytes_of_hex h)
-  | ["sft"; i; h] -> OSetFromString (nat (ios i), bytes_of_hex h)   (* h = the characters of the text *)
-  | ["news"; i; h] -> ONewStr (nat (ios i), bytes_of_hex h)
-  | ["srv"; i; off; v; n] -> OSetRangeToValue (nat (ios i), num off, num v, num n)
-  | ["sr"; i; off; p; n] -> OSetRange (nat (ios i), num off, parse_ptr p, num n)
-  | ["sc"; i; ch; v] -> OSetChannel (nat (ios i), num ch, num v)
-  | ["setraw"; i; j; k; n] -> OSetRaw (nat (ios i), nat (ios j), num k, num n)
-  | ["srraw"; i; off; j; k; n] -> OSetRangeRaw (nat (ios i), num off, nat (ios j), num k, num n)
-  | ["htp"; i; j] -> OHTPMerge (nat (ios i), nat (ios j))
-  | ["bo"; i] -> OBlackout (nat (ios i))
-  | ["rst"; i] -> OReset (nat (ios i))
+  | ["new"; i] -> if ios i >= 4 then None else Some ([ONew (pn i)], true)
+  | ["cpy"; i; j] -> if ios i >= 4 then None else Some ([OCopyNew (pn i, pn j)], true)
+  | ["newd"; i; p; n] -> if ios i >= 4 then None else Some ([ONewData (pn i, parse_ptr p, num n)], true)
+  | ["news"; i; h] -> if ios i >= 4 then None else Some ([ONewStr (pn i, bytes_of_hex h)], true)
+  | ["del"; i] -> if ios i >= 4 then None else Some ([ODestroy (pn i)], true)
+  | ["asg"; i; j] -> Some ([OAssign (pn i, pn j)], true)
+  | ["setb"; i; j] -> Some ([OSetBuf (pn i, pn j)], true)
+  | ["setp"; i; p; n] -> Some ([OSetPtr (pn i, parse_ptr p, num n)], true)
+  | ["sets"; i; h] -> Some ([OSetStr (pn i, bytes_of_hex h)], true)
+  | ["sft"; i; h] -> Some ([OSetFromString (pn i, bytes_of_hex h)], true)   (* h = the characters of the text *)
+  | ["srv"; i; off; v; n] -> Some ([OSetRangeToValue (pn i, num off, num v, num n)], true)
+  | ["sr"; i; off; p; n] -> Some ([OSetRange (pn i, num off, parse_ptr p, num n)], true)
+  | ["sc"; i; ch; v] -> Some ([OSetChannel (pn i, num ch, num v)], true)
+  | ["setraw"; i; j; k; n] -> Some ([OSetRaw (pn i, pn j, num k, num n)], true)
+  | ["srraw"; i; off; j; k; n] -> Some ([OSetRangeRaw (pn i, num off, pn j, num k, num n)], true)
+  | ["htp"; i; j] -> Some ([OHTPMerge (pn i, pn j)], true)
+  | ["bo"; i] -> Some ([OBlackout (pn i)], true)
+  | ["rst"; i] -> Some ([OReset (pn i)], true)
+  (* x = DmxBuffer(y);   x = Snapshot(y) with  DmxBuffer Snapshot(const DmxBuffer &b) { DmxBuffer c(b); return c; } *)
+  | [("asgt" | "asgr"); i; j] ->
+    if lv i && lv j then
+      Some ([OCopyNew (nat tmp_slot, pn j); OAssign (pn i, nat tmp_slot); ODestroy (nat tmp_slot)], false)
+    else None
+  (* std::swap(x, y):  T tmp(x); x = y; y = tmp; *)
+  | ["swap"; i; j] -> if lv i && lv j then Some (swap_ops (phys (ios i)) (phys (ios j)), false) else None
+  (* vec.push_back(y) *)
+  | ["vpush"; j] -> if vs < vcap && lv j then (vsize := vs + 1; Some ([OCopyNew (nat (vb + vs), pn j)], false)) else None
+  (* vec.push_back(DmxBuffer(y)) *)
+  | ["vpusht"; j] ->
+    if vs < vcap && lv j then begin
+      let pj = pn j in vsize := vs + 1;
+      Some ([OCopyNew (nat tmp_slot, pj); OCopyNew (nat (vb + vs), nat tmp_slot); ODestroy (nat tmp_slot)], false) end
+    else None
+  | ["vpop"] -> if vs > 0 then (vsize := vs - 1; Some ([ODestroy (nat (vb + vs - 1))], false)) else None
+  (* vec.erase(begin + k): the elements behind k are assigned one position down, the last one is destroyed *)
+  | ["verase"; k] ->
+    let k = ios k in
+    if k < vs then begin
+      vsize := vs - 1;
+      Some (List.map (fun m -> OAssign (nat (vb + m), nat (vb + m + 1))) (range k (vs - 2))
+            @ [ODestroy (nat (vb + vs - 1))], false) end
+    else None
+  (* vec.insert(begin + k, y) with spare capacity (libstdc++: copy of y first, new last element from the
+     old last, the rest assigned one position up from the back, then the copy assigned into place) *)
+  | ["vins"; k; j] ->
+    let k = ios k in
+    if vs < vcap && k <= vs && lv j then begin
+      let pj = pn j in vsize := vs + 1;
+      if k = vs then Some ([OCopyNew (nat (vb + vs), pj)], false)
+      else Some ([OCopyNew (nat tmp_slot, pj); OCopyNew (nat (vb + vs), nat (vb + vs - 1))]
+                 @ List.map (fun m -> OAssign (nat (vb + m), nat (vb + m - 1))) (List.rev (range (k + 1) (vs - 1)))
+                 @ [OAssign (nat (vb + k), nat tmp_slot); ODestroy (nat tmp_slot)], false) end
+    else None
+  (* vec.resize(n) *)
+  | ["vresize"; n] ->
+    let n = ios n in
+    if n <= vcap then begin
+      vsize := n;
+      Some ((if n >= vs then List.map (fun m -> ONew (nat (vb + m))) (range vs (n - 1))
+             else List.map (fun m -> ODestroy (nat (vb + m))) (range n (vs - 1))), false) end
+    else None
+  (* vec.reserve(capacity + 4): every element is copy/move constructed into new storage, then the old ones die *)
+  | ["vrealloc"] ->
+    let nb = if vb = 4 then 8 else 4 in
+    vbase := nb;
+    Some (List.map (fun m -> OCopyNew (nat (nb + m), nat (vb + m))) (range 0 (vs - 1))
+          @ List.map (fun m -> ODestroy (nat (vb + m))) (range 0 (vs - 1)), false)
+  (* std::reverse(vec.begin(), vec.end()) = iter_swap of the outer pairs *)
+  | ["vrev"] -> Some (List.concat (List.map (fun m -> swap_ops (vb + m) (vb + vs - 1 - m)) (range 0 (vs / 2 - 1))), false)
   | _ -> failwith ("bad op " ^ t)
 let target_of (t : string) : int =
-  match String.split_on_char ',' t with _ :: i :: _ -> ios i | _ -> 0
+  match String.split_on_char ',' t with
+  | ("vpush" | "vpusht") :: _ -> 4 + !vsize - 1
+  | ("vpop" | "vresize" | "vrealloc" | "vrev") :: _ -> 4
+  | ("verase" | "vins") :: k :: _ -> 4 + ios k
+  | _ :: i :: _ -> ios i
+  | _ -> 0
 
 let rle_ints (a : int array) : string =
   let n = Array.length a in
@@ -61,7 +144,8 @@ let a_str = function
   | ABool b -> bool01 b
 let ret_str = function RSkip -> "skip" | RUnit -> "u" | RBool b -> bool01 b
 
-let probes (s : st) (i : int) : string =
+let probes (s : st) (l : int) : string =
+  let i = phys l in
   match q s (QSize (nat i)) with
   | ANum sz ->
     let z = int_of_n sz in
@@ -70,25 +154,26 @@ let probes (s : st) (i : int) : string =
     let gb = [0; max 0 (z - 1); z; z + 1; 513] in
     let gr = [(0, z + 1); (max 0 (z - 1), 2); (z, 1); (1, z); (z / 2, 4294967295); (511, 2); (512, 1)] in
     let ts = match q s (QToString (nat i)) with ABytes l -> fnv l | _ -> "?" in
-    Printf.sprintf "%d/%s/%s/%s/%s" i ts
+    Printf.sprintf "%d/%s/%s/%s/%s" l ts
       (String.concat "," (List.map (fun c -> a_str (q s (QGetCh (nat i, ni c)))) chs))
       (String.concat "," (List.map (fun n -> a_str (q s (QGetBuf (nat i, ni n)))) gb))
       (String.concat "," (List.map (fun (sl, n) -> a_str (q s (QGetRange (nat i, ni sl, ni n)))) gr))
-  | _ -> Printf.sprintf "%d/raw" i
+  | _ -> Printf.sprintf "%d/raw" l
 
-let slot_str (s : st) (i : int) : string =
+let slot_str (s : st) (l : int) : string =
+  let i = phys l in
   match q s (QSize (nat i)) with
   | ANum sz -> Printf.sprintf "%d:%s" (int_of_n sz) (a_str (q s (QGetStr (nat i))))
   | _ -> "-"
 let eq_str (s : st) : string =
-  let b = Buffer.create 16 in
-  for i = 0 to nslots - 1 do for j = 0 to nslots - 1 do
-    Buffer.add_string b (match q s (QEq (nat i, nat j)), q s (QNe (nat i, nat j)) with
+  let b = Buffer.create 64 in
+  for i = 0 to nlog - 1 do for j = 0 to nlog - 1 do
+    Buffer.add_string b (match q s (QEq (nat (phys i), nat (phys j))), q s (QNe (nat (phys i), nat (phys j))) with
       | ABool e, ABool ne -> if e = ne then "?" else if e then "1" else "0"
       | _ -> "x")
   done done; Buffer.contents b
 let internal_str (s : st) : string =
-  let info = Array.init nslots (fun i -> internals s (nat i)) in
+  let info = Array.init nlog (fun l -> internals s (nat (phys l))) in
   let cls i = match info.(i) with
     | Some ((Some id, _), _) ->
       let rec first k = match info.(k) with
@@ -98,45 +183,62 @@ let internal_str (s : st) : string =
   let one i = match info.(i) with
     | None -> "-"
     | Some ((_, cow), rc) -> Printf.sprintf "%s%s%d" (cls i) (if cow then "c" else ".") (int_of_nat rc) in
-  String.concat "," (List.init nslots one) ^ "|hb=" ^ string_of_int (int_of_nat (live_blocks s))
+  String.concat "," (List.init nlog one) ^ "|hb=" ^ string_of_int (int_of_nat (live_blocks s))
 
-let is_mut name = not (List.mem name ["new"; "cpy"; "del"; "asg"; "news"; "newd"])
+let is_mut name = List.mem name ["setb"; "setp"; "sets"; "sft"; "srv"; "sr"; "sc"; "setraw"; "srraw"; "htp"; "bo"; "rst"]
+let is_expr name = List.mem name ["asgt"; "asgr"; "swap"; "vpush"; "vpusht"; "vpop"; "verase"; "vins"; "vresize";
+                                  "vrealloc"; "vrev"]
 let handle (p : string) : string =
   let unfixed = String.length p > 0 && p.[0] = '!' in   (* '!' prefix: run the UNFIXED Set(buffer) model *)
   let p = if unfixed then String.sub p 1 (String.length p - 1) else p in
   let toks = List.filter (fun t -> t <> "") (split p) in
-  let s = ref (init_st (nat nslots)) in
+  let s = ref (init_st (nat nmodel)) in
+  vbase := 4; vsize := 0;
   let out = Buffer.create 1024 in
-  let accepted = ref 0 and refused = ref 0 and shared_mut = ref 0 and selfops = ref 0 in
+  let accepted = ref 0 and refused = ref 0 and shared_mut = ref 0 and selfops = ref 0 and exprs = ref 0 in
   let hazard = ref "" in
   (try
     List.iteri (fun k t ->
-      let o = parse_op t in
       let name = List.hd (String.split_on_char ',' t) in
+      let ex = expand !s t in
+      let tg = target_of t in          (* after expand: vpush's target is the new last element *)
+      let tg = if tg < 0 || tg >= nlog then 0 else tg in
       (* class bookkeeping: mutation of a buffer whose block is shared *)
-      (match internals !s (nat (target_of t)) with
+      (match internals !s (nat (phys tg)) with
        | Some ((Some _, _), rc) when int_of_nat rc > 1 && is_mut name -> incr shared_mut | _ -> ());
       (match String.split_on_char ',' t with
-       | [("asg" | "setb" | "htp"); i; j] when i = j -> incr selfops | _ -> ());
-      match (if unfixed then cstep_unfixed fresh !s o else cstep fresh !s o) with
-      | Hz h ->
-        Buffer.add_string out (Printf.sprintf "o%d=HZ:%s;" k (hz_name h));
-        raise (Hazard (hz_name h))
-      | Ok (s', r) ->
-        s := s';
-        (match r with RBool true | RUnit -> incr accepted | RBool false -> incr refused | RSkip -> ());
-        let tg = target_of t in
-        let other = k mod nslots in
-        Buffer.add_string out (Printf.sprintf "o%d=%s|%s|%s|%s%s;" k (ret_str r)
-          (String.concat "|" (List.init nslots (slot_str !s))) (eq_str !s) (probes !s tg)
-          (if other <> tg then "|" ^ probes !s other else ""));
-        Buffer.add_string out (Printf.sprintf "i%d=%s;" k (internal_str !s))) toks
+       | [("asg" | "setb" | "htp" | "asgt" | "asgr" | "swap"); i; j] when i = j -> incr selfops | _ -> ());
+      let r =
+        match ex with
+        | None -> RSkip
+        | Some (ops, single) ->
+          if is_expr name then incr exprs;
+          let last = ref RUnit in
+          List.iter (fun o ->
+            match (if unfixed then cstep_unfixed fresh !s o else cstep fresh !s o) with
+            | Hz h ->
+              Buffer.add_string out (Printf.sprintf "o%d=HZ:%s;" k (hz_name h));
+              raise (Hazard (hz_name h))
+            | Ok (s', r) ->
+              s := s';
+              (* inside an expression every step must be an executed one *)
+              if (not single) && r = RSkip then begin
+                Buffer.add_string out (Printf.sprintf "o%d=BADEXPANSION;" k); raise (Hazard "BadExpansion") end;
+              last := r) ops;
+          if single then !last else RUnit in
+      (match r with RBool true | RUnit -> incr accepted | RBool false -> incr refused | RSkip -> ());
+      let other = k mod nlog in
+      Buffer.add_string out (Printf.sprintf "o%d=%s|%s|%s|%s%s;" k (ret_str r)
+        (String.concat "|" (List.init nlog (slot_str !s))) (eq_str !s) (probes !s tg)
+        (if other <> tg then "|" ^ probes !s other else ""));
+      Buffer.add_string out (Printf.sprintf "i%d=%s;" k (internal_str !s))) toks
   with Hazard h -> hazard := h);
   let cls =
     if !hazard <> "" then "hazard-" ^ !hazard
-    else Printf.sprintf "%s%s%s"
+    else Printf.sprintf "%s%s%s%s"
       (if !shared_mut > 0 then "sharedmut" else "noshare")
       (if !selfops > 0 then "+self" else "")
+      (if !exprs > 0 then "+expr" else "")
       (if !refused > 0 then "+refusal" else "") in
   Buffer.add_string out (Printf.sprintf "hz=%s;acc=%d;ref=%d;class=%s"
     (if !hazard = "" then "-" else !hazard) !accepted !refused cls);
